@@ -140,7 +140,7 @@ def show_expr(e, lvl, holes, concrete, prec=0):
             else: out.append(ind(lvl) + "else")
             out.extend(show_block(b, lvl + 1, holes, concrete))
         out.append(ind(lvl) + "end")
-        return wrap("\n".join(out), 8) if prec > 0 else "\n".join(out)
+        return "(" + "\n".join(out) + ")" if prec > 0 else "\n".join(out)
     if k == "case":
         out = ["case %s do" % E(e[1])]
         for v, bind, b in e[2]:
@@ -152,7 +152,7 @@ def show_expr(e, lvl, holes, concrete, prec=0):
             out.extend(show_block(e[3], lvl + 2, holes, concrete))
             out.append(ind(lvl + 1) + "end")
         out.append(ind(lvl) + "end")
-        return wrap("\n".join(out), 8) if prec > 0 else "\n".join(out)
+        return "(" + "\n".join(out) + ")" if prec > 0 else "\n".join(out)
     raise ValueError("expr " + repr(e))
 
 
